@@ -598,6 +598,9 @@ func runC19(c *Ctx) {
 	soakDone := make(chan struct{})
 	go c19FailingOnly(c, soakDone)
 	defer func() { <-soakDone }()
+	connDone := make(chan struct{})
+	go c19ConnectionFaults(c, connDone)
+	defer func() { <-connDone }()
 	docsDone := make(chan struct{})
 	go c19DocsAssets(c, "VERIF_SERVER_BIN", c.N(3, 12), "", docsDone)
 	defer func() {
@@ -677,6 +680,9 @@ func runC19(c *Ctx) {
 		r.Count("respelled_requests", n)
 	}
 	c19ResourceGrowth(c, srv)
+	if srv = c19HostileHeaders(c, srv); srv == nil {
+		return
+	}
 	c19Soak(c, srv, seq, probe)
 	srv = c19SkewProbes(c, srv)
 	if srv == nil {
@@ -715,7 +721,7 @@ func runC19(c *Ctx) {
 func init() {
 	register(&Prop{
 		ID: "C19",
-		Rule: "the real server binary on loopback receives a seeded shuffle of hostile requests (broken JSON, every field with every JSON type, numbers at and beyond 64-bit limits, skew/period/counter/timestamp extremes, unknown/contradictory/weird suites, bad hex, 1 MiB bodies and bodies above the limit, every method x every path, unknown paths, raw TCP fragments), sequentially with per-request server CPU accounting (/proc/<pid>/stat) and then on 32 connections, interleaved with well-formed probe requests judged by the C18 oracle; every response must be complete, 2xx only with the endpoint's success object, no single request may cost more than 2 CPU-seconds, refused skews must not accept, value-equivalent respellings of well-formed requests (numbers as 100.0 / 1e2 / \"100\", shuffled keys, unused fields of a wrong type) must be refused or answered for exactly the values written (C18 oracle), for ten request classes four equal batches are sent and the server's resident memory is read after each (steady growth of >= 4 MiB per batch = something is kept per request for good), documentation assets requested by 224 clients at once under eight Accept-Encoding values in rounds that each meet an expired compressed-file cache, by one client alone and by 40 clients with the same first request on freshly started servers for every (file, coding) pair, and by 96 concurrent byte-range requests per round, must decode (by the coding the response names) to the bytes served for the identity coding resp. carry the bytes their Content-Range names, probes must stay correct and the process alive; " +
+		Rule: "the real server binary on loopback receives a seeded shuffle of hostile requests (broken JSON, every field with every JSON type, numbers at and beyond 64-bit limits, skew/period/counter/timestamp extremes, unknown/contradictory/weird suites, bad hex, 1 MiB bodies and bodies above the limit, every method x every path, unknown paths, raw TCP fragments), sequentially with per-request server CPU accounting (/proc/<pid>/stat) and then on 32 connections, interleaved with well-formed probe requests judged by the C18 oracle; every response must be complete, 2xx only with the endpoint's success object, no single request may cost more than 2 CPU-seconds, refused skews must not accept, value-equivalent respellings of well-formed requests (numbers as 100.0 / 1e2 / \"100\", shuffled keys, unused fields of a wrong type) must be refused or answered for exactly the values written (C18 oracle), for ten request classes four equal batches are sent and the server's resident memory is read after each (steady growth of >= 4 MiB per batch = something is kept per request for good), 27 request-header names x hostile values one at a time under CPU accounting; on a second server: refused/failed first requests followed by a well-formed request on the same connection (judged by the C18 oracle), abandoned uploads and clients stalled beyond the read timeout, each followed by probes; documentation assets requested by 224 clients at once under eight Accept-Encoding values in rounds that each meet an expired compressed-file cache, by one client alone and by 40 clients with the same first request on freshly started servers for every (file, coding) pair, and by 96 concurrent byte-range requests per round, must decode (by the coding the response names) to the bytes served for the identity coding resp. carry the bytes their Content-Range names, probes must stay correct and the process alive; " +
 			"distinct_nontrivial counts distinct hostile (method, path, body) requests plus distinct probes",
 		Run: runC19,
 		Replay: func(c *Ctx, kind string, raw json.RawMessage) error {
